@@ -366,7 +366,10 @@ pub fn run_keep(plan: &ServerPlan, exec: &Exec, want_log: bool, keep_root: bool)
             root: root2.clone(),
         };
         if let Some(server) = server {
-            let start_zones = server.zones_lock.read().await.clone();
+            let start_zones = {
+                let guard = server.zones_lock.read().await;
+                zones_of(&guard)
+            };
             let versions: Arc<Mutex<Vec<(u64, Zones)>>> = Arc::new(Mutex::new(vec![(0, start_zones)]));
 
             // clients
@@ -400,7 +403,10 @@ pub fn run_keep(plan: &ServerPlan, exec: &Exec, want_log: bool, keep_root: bool)
                         }
                         OperatorAction::Signal => simseam::signal::raise_sigusr1(),
                         OperatorAction::Snapshot => {
-                            let z = zl.read().await.clone();
+                            let z = {
+                                let guard = zl.read().await;
+                                zones_of(&guard)
+                            };
                             v2.lock().unwrap().push((simseam::clock::elapsed_ms(), z));
                         }
                     }
@@ -443,7 +449,10 @@ pub fn run_keep(plan: &ServerPlan, exec: &Exec, want_log: bool, keep_root: bool)
                 !server.reload_task.is_finished(),
                 !server.prune_task.is_finished(),
             );
-            let final_zones = server.zones_lock.read().await.clone();
+            let final_zones = {
+                let guard = server.zones_lock.read().await;
+                zones_of(&guard)
+            };
             let mut v = versions.lock().unwrap().clone();
             v.push((simseam::clock::elapsed_ms(), final_zones));
             out.versions = v;
@@ -472,4 +481,10 @@ pub fn run_keep(plan: &ServerPlan, exec: &Exec, want_log: bool, keep_root: bool)
         let _ = std::fs::remove_dir_all(&root);
     }
     obs
+}
+
+/// A copy of the configuration behind the server's lock (the guard derefs to
+/// `Zones`, directly or through an `Arc`).
+fn zones_of(z: &Zones) -> Zones {
+    z.clone()
 }
